@@ -20,10 +20,11 @@ Record fixes := mkFx {
   fx_time_first : bool;   (* constructor: original[time_range][types] (was: [types][time_range]) *)
   fx_remove_nans : bool;  (* get_time_range(hint) without bounds honours the hint; remove-untimed relocates *)
   fx_last_off : bool;     (* reader remembers the offset of the last entry consumed (was: re-derived from index) *)
-  fx_populate_rewind : bool  (* source-id discovery samples every type from the start of the file (was: from where the previous type ended) *)
+  fx_populate_rewind : bool; (* source-id discovery samples every type from the start of the file (was: from where the previous type ended) *)
+  fx_srcs_as_requested : bool (* the requested source ids are applied as given (was: intersected with the ids seen in the sample) *)
 }.
-Definition fixed : fixes := mkFx true true true true true true.
-Definition legacy : fixes := mkFx false false false false false false.
+Definition fixed : fixes := mkFx true true true true true true true.
+Definition legacy : fixes := mkFx false false false false false false false.
 
 Inductive err := IndexError | ValueError | UnboundLocalError | Unsupported | InternalError.
 Inductive res (A : Type) := Ok (a : A) | Err (e : err).
